@@ -15,7 +15,7 @@ for lg in logs:
 out = ["# Seeded changes: which checks catch them", "",
        "Each row is a change to tokio-rs/bytes that still compiles and passes the pinned suite (confirmed in a scratch worktree: `meta.json`).",
        "`Cxx-mN` = written by an independent sub-agent that saw only the property text; `own/*` = written from DESIGN.md §4 'M' lists.",
-       "Checks were run with `tools/try_patch.py` (quick tier, VERIF_SEED=1) on /repo with the patch applied and reverted afterwards.", "",
+       "Checks were run with `tools/try_patch.py` (quick tier, VERIF_SEED=1) with the patch applied (to /repo in rounds 1-2, to an independent copy via `tools/eval_copy.sh` from round 3 on) and reverted afterwards. Each cell shows the LATEST measurement of that (change, check) pair; the per-round first measurements are in the `eval_round*a*` logs.", "",
        "| change | breaks | needs | check → result (signature) |", "|---|---|---|---|"]
 for name in sorted(res):
     meta = {}
